@@ -17,7 +17,17 @@ REGISTRY = {
             'isotope offsets, losses and both modes: b_plus_y (b_i + y_(n-i) = M + 2h), forward_series_offsets (a = b - CO, c = b + NH3), '
             'backward_series_offsets (x = y + CO - H2, z = y - NH3), internal_offsets (nine series = by + pair of terminal offsets), '
             'immonium_mass, charge_step (+PROTON_MASS per charge), mod_locality. The same relations are evaluated on the real '
-            'fragment() / mass() output against a hand-typed atomic-mass table at 1e-5 Da',
+            'fragment() / mass() output against a hand-typed atomic-mass table at 1e-5 Da. '
+            'Round-5 extension (Props/C05Ext, 10 theorems, same model functions mass / mz): complementary_pairs (all nine forward/backward '
+            'pairs at any charges, isotope offsets, losses: f + g = M + 2h + off(f) + off(g) + (z1+z2-2) protons + ...), complementary_ax_cz '
+            '(a + x = M + 2h - H2, c + z = M + 2h), loss_isotope_shift (every ion shifts by exactly loss + isotope x NEUTRON_MASS), '
+            'charge_difference ((z - z0) x PROTON_MASS for any two charges, negative included), mz_charge_relation (mz = (m1 + (z-1)p)/z for '
+            'every z != 0), internal_prefix_difference (fg[s2] = b[s1+s2] - b[s1] + h + off(f) + off(g)), residues_positive (kernel evaluation: '
+            'every residue mass >= 0, > 0 except X), forward_series_monotone (a longer prefix is never lighter, strictly heavier unless the run '
+            'contains X), x_residue_massless (the counter-example to strictness in the code as it is), terminal_mod_locality (N-terminal mods '
+            'sit on every prefix ion, C-terminal mods on every suffix ion, by exactly their value); the signed-charge mass / mz of every ion type '
+            'is run against the model (correspondence mass_mz_signed) and the new relations are evaluated on real fragment() / mass() / mz() '
+            'output (oracle ext_relations)',
     'note': 'trusted: Lean kernel; the Python subset reader harness/translate_masscore.py (its output Generated/MassCorePy.lean is committed and readable next to the source; round(x, p) is read as round-half-even on the exact rational, floats as exact rationals); translator; hand-typed NIST/CODATA data; fragment() itself is not modelled here (C04) - every fragment '
             'it returns is re-computed by the model of mass() from the fragment\'s own sequence text (correspondence) and checked '
             'directly by the oracle; which fragment annotations contain a residue (slicing) is C07/C11',
@@ -79,7 +89,7 @@ def run(chk):
     translate_tables.translate(chk)
     # adjust_mass / adjust_mz (where the ion offsets enter) read mechanically from the source
     gen_done, gen_unt = translate_masscore.translate(chk)
-    chk.lean_build(['PeptVerif.Props.C05', 'PeptVerif.Props.C02Gen'], DRV)
+    chk.lean_build(['PeptVerif.Props.C05', 'PeptVerif.Props.C05Ext', 'PeptVerif.Props.C02Gen'], DRV)
     chk.trusted += [
         'harness/translate_masscore.py: the reading of the Python subset (None defaults, = += -=, d[k] = v, if/elif/else on == != in-tuple '
         'in-TABLE is-True is-None and Python truthiness, or, + - * /, conditional expressions, TABLE[key] as KeyError, round -> '
@@ -317,6 +327,94 @@ def run(chk):
     chk.oracle('mod_locality', lcases, locality, key_fn=keyf)
     _attach(chk, 'mod_locality', lcases, locality, shrink=False)
 
+    # ------------------------------------------------------------------ round-5 extension: signed charges, isotope / loss, mz
+    scases = []
+    for a, mono in peps[:: (2 if tier == 'quick' else 1)]:
+        for _ in range(3):
+            kw = {'ion_type': rng.choice(cm.ION_TYPES), 'charge': rng.choice([-4, -3, -2, -1, 0, 1, 2, 3, 4]), 'monoisotopic': mono,
+                  'isotope': rng.choice([0, 0, 1, 2, -1]), 'loss': rng.choice([0.0, -18.010565, -17.026549, 79.96633, 1.5])}
+            scases.append(('mass', a, kw))
+            scases.append(('mz', a, kw))
+    slines = [cm.line(op, a, kw) for op, a, kw in scases]
+    souts = chk.driver(DRV, slines)
+    st = chk.corr.setdefault('mass_mz_signed', {'evaluations': 0, 'disagreements': 0, 'samples': []})
+    for (op, a, kw), l, m in zip(scases, slines, souts):
+        im = cm.call(pt.mass if op == 'mass' else pt.mz, a, kw)
+        st['evaluations'] += 1
+        chk.evaluations += 1
+        chk.count('signed:' + op + ':z' + ('-' if kw['charge'] < 0 else '0' if kw['charge'] == 0 else '+'))
+        chk.nontrivial.add('signed|' + l)
+        if len(st['samples']) < 2:
+            st['samples'].append({'line': l[:300], 'impl': im, 'model': m})
+        if not cm.cmp_float(im, m, 1e-7):
+            st['disagreements'] += 1
+            if len([d for d in chk.disagreements if d['op'] == 'mass_mz_signed']) < 5:
+                chk.disagreements.append({'op': 'mass_mz_signed', 'line': l, 'impl': im, 'model': m})
+
+    def ext_relations(c):
+        """the relations of Props/C05Ext on real fragment() / mass() / mz() output, reference constants hand-typed"""
+        a, mono = c
+        o = off(mono)
+        n = len(a._sequence)
+        res = _ref_residues(chk, nuc, avg)
+        M = pt.mass(a.copy(), charge=0, ion_type='p', monoisotopic=mono)
+        ix = {(f.ion_type, f.start, f.end, f.charge): f.mass
+              for f in pt.fragment(a.copy(), ion_types=cm.FRAGMENT_TYPES, charges=[1, 2, 3], monoisotopic=mono)}
+        bad = []
+
+        def close(x, y, what):
+            if abs(x - y) > TOL:
+                bad.append(f'{what}: {x!r} vs {y!r} (diff {x - y:.6g})')
+
+        def gained(s, e):
+            tot = 0.0
+            for k in range(s, e):
+                tot += res[(a._sequence[k], mono)]
+                for m in (a._internal_mods or {}).get(k, []):
+                    tot += ref_mod_mass(m, mono, nuc, avg)
+            return tot
+
+        try:
+            for i in range(1, n):
+                for f in 'abc':
+                    for g in 'xyz':
+                        for z1, z2 in ((1, 1), (2, 1), (1, 3), (2, 2)):
+                            close(ix[(f, 0, i, z1)] + ix[(g, i, n, z2)],
+                                  M + 2 * o['h'] + series_off(f, o) + series_off(g, o) + (z1 + z2 - 2) * o['p'],
+                                  f'{f}{i}(z={z1}) + {g}{n - i}(z={z2}) = M + 2h + off({f}) + off({g}) + {z1 + z2 - 2} protons')
+            for s in range(1, n):
+                for e in range(s + 1, n):
+                    for t in cm.INTERNAL:
+                        for z in (1, 2):
+                            close(ix[(t, s, e, z)], ix[('b', 0, e, z)] - ix[('b', 0, s, 1)] + o['h'] + series_off(t[0], o) + series_off(t[1], o),
+                                  f'internal {t}[{s},{e}) (z={z}) = b{e}(z={z}) - b{s}(z=1) + h + off({t[0]}) + off({t[1]})')
+            for t in 'abc':
+                for i in range(1, n):
+                    close(ix[(t, 0, i + 1, 1)] - ix[(t, 0, i, 1)], gained(i, i + 1) + (sum(ref_mod_mass(m, mono, nuc, avg) for m in a._cterm_mods or []) if i + 1 == n else 0.0),
+                          f'{t}{i + 1} - {t}{i} = residue {i} with its modifications')
+            for t in 'xyz':
+                for s in range(1, n):
+                    close(ix[(t, s - 1, n, 1)] - ix[(t, s, n, 1)], gained(s - 1, s) + (sum(ref_mod_mass(m, mono, nuc, avg) for m in a._nterm_mods or []) if s == 1 else 0.0),
+                          f'{t}{n - s + 1} - {t}{n - s} = residue {s - 1} with its modifications')
+        except KeyError as e:
+            bad.append(f'fragment {e} missing from fragment() output')
+        # loss / isotope / charge / mz on mass() and mz() of the whole peptide, signed charges
+        for t in rng.sample(cm.ION_TYPES, 5):
+            m0 = {z: pt.mass(a.copy(), charge=z, ion_type=t, monoisotopic=mono) for z in (-3, -1, 0, 1, 2, 4)}
+            for z in (-3, -1, 0, 2, 4):
+                close(m0[z], m0[1] + (z - 1) * o['p'], f'mass(ion_type={t}, z={z}) = mass(z=1) + {z - 1} protons')
+                if z != 0:
+                    close(pt.mz(a.copy(), charge=z, ion_type=t, monoisotopic=mono), (m0[1] + (z - 1) * o['p']) / z,
+                          f'mz(ion_type={t}, z={z}) = (m1 + (z-1) protons) / z')
+            for iso, loss in ((1, 0.0), (3, -18.010565), (-2, 97.9769), (0, -17.026549)):
+                close(pt.mass(a.copy(), charge=2, ion_type=t, monoisotopic=mono, isotope=iso, loss=loss), m0[2] + iso * part['n'] + loss,
+                      f'mass(ion_type={t}, z=2, isotope={iso}, loss={loss}) = mass + isotope x neutron + loss')
+        return '; '.join(bad[:4]) if bad else None
+
+    ecases = ocases[: (40 if tier == 'quick' else 600) * (3 if chk.broken() else 1)]
+    chk.oracle('ext_relations', ecases, ext_relations, nontrivial_fn=lambda c: cm.has_mods(c[0]) or len(c[0]._sequence) >= 3, key_fn=keyf)
+    _attach(chk, 'ext_relations', ecases, ext_relations)
+
     # ion-offset tables entry by entry (witness producer for the table theorems)
     from peptacular.chem import chem_constants
 
@@ -342,7 +440,7 @@ def run(chk):
     chk.oracle('ion_offset_tables', [(t, m) for t in cm.ION_TYPES for m in (True, False)], o_table)
     cm.attach_reach(chk, reach)
     if tier == 'thorough':
-        chk.leanchecker(['PeptVerif.Props.C05'])
+        chk.leanchecker(['PeptVerif.Props.C05', 'PeptVerif.Props.C05Ext'])
     return chk.finish(classify)
 
 
